@@ -378,7 +378,7 @@ int main(int argc, char** argv) {
   f7.count = (uint64_t)NV.size() * MV.size() * 4 * 2 * 3;
   f7.group = "SV";
   f7.chunk = 64;
-  f7.rule = "existing object of N members (N in {0,1,2,3,8,15..17,24,31..34,40,64,65}) x text with M undeclared keys (every M in 0..40 and 48,63..65,100) plus values for the first, middle and last declared member, in 4 layouts (undeclared first / declared first / interleaved / undeclared first with the declared ones in reverse order), declared values merged (object) or replaced (string); x 3 states of the existing document";
+  f7.rule = "(undeclared keys alternately plain / spelled with \\/ / with a \\u escape; layout 3 spells the declared keys with a \\u escape) existing object of N members (N in {0,1,2,3,8,15..17,24,31..34,40,64,65}) x text with M undeclared keys (every M in 0..40 and 48,63..65,100) plus values for the first, middle and last declared member, in 4 layouts (undeclared first / declared first / interleaved / undeclared first with the declared ones in reverse order), declared values merged (object) or replaced (string); x 3 states of the existing document";
 
   // SQ: string over string. Existing and new string values of different lengths / contents, in 4 positions, the existing
   // one parsed, under a lookup map, or a CONSTANT string of the caller (which must not be written to)
@@ -524,8 +524,10 @@ int main(int argc, char** argv) {
       if (N > 1) upd.push_back(N - 1);
       if (layout == 3) std::reverse(upd.begin(), upd.end());
       std::vector<std::string> news, upds, items;
-      for (unsigned j = 0; j < M; j++) news.push_back("\"n" + std::to_string(j) + "\":" + (j % 3 == 2 ? "{\"v\":[1,{\"k0\":2}]}" : std::to_string(j)));
-      for (unsigned u : upd) upds.push_back(tk(u) + ":" + (repl ? "\"replaced\"" : "{\"w\":" + std::to_string(u) + ",\"zz\":1}"));
+      // undeclared keys: every second one spelled with an escape (\/ or a \u escape of its first letter)
+      for (unsigned j = 0; j < M; j++)
+        news.push_back(std::string(j % 4 == 1 ? "\"n\\/" : j % 4 == 3 ? "\"\\u006e" : "\"n") + std::to_string(j) + "\":" + (j % 3 == 2 ? "{\"v\":[1,{\"k0\":2}]}" : std::to_string(j)));
+      for (unsigned u : upd) upds.push_back((layout == 3 ? "\"\\u006b" + std::to_string(u) + "\"" : tk(u)) + ":" + (repl ? "\"replaced\"" : "{\"w\":" + std::to_string(u) + ",\"zz\":1}"));
       if (layout == 0 || layout == 3) {
         items = news;
         items.insert(items.end(), upds.begin(), upds.end());
